@@ -1,7 +1,552 @@
-/- C16: model not built yet (stub so that the per-property driver links). -/
+/-
+C16 — status replay, configuration persistence, crash safety.
+
+(i)  The replay cache of `RunClientUpdater` (client_updater.go): `lastMessages` (keys) and
+     `lastMessageStrings` (JSON text per tag, Go map semantics: a missing key reads as ""),
+     `update`, `SENDALL`, the no-publish / no-save tag sets, and what `saveState` hands to viper.
+(ii) `saveOps`: the ordered file-system steps of `saveState` over a three-file model
+     (`main`, `tmp`, `bak`) with a NON-atomic write (a kill inside it leaves any prefix) and atomic
+     `remove` / `rename` / `link`; a crash stops after any number of completed steps; the next
+     start-up (`makeFileExist` + read in cmd/dastard/dastard.go) creates an empty file if none exists.
+
+The constants `saveOps`, `noPublish`, `noSave`, `saveAdds` are compared on every run with the facts
+the harness re-reads from the Go source (`F` line).  Core Lean only.
+-/
 import DastardV.Proto
 namespace DastardV.C16
 
-def runLine (_ts : List String) : Verdict := .bad "C16: model not built yet"
+abbrev Tag := String
+/-- JSON text of a status message (opaque). The empty string is what Go yields for a missing map key. -/
+abbrev Msg := String
+
+/-! ## Facts regenerated from the source (checked against the `F` line of every run) -/
+
+/-- `nopublishMessages` -/
+def noPublish : List Tag := ["CURRENTTIME", "___1", "___2", "___3", "___4", "___5"]
+/-- `nosaveMessages` (compared with the lower-cased tag) -/
+def noSave : List String :=
+  ["alive", "channelnames", "externaltrigger", "newdastard", "numberwritten", "tesmap", "triggerrate"]
+/-- the keys `saveState` inserts into the cache map before saving -/
+def saveAdds : List Tag := ["CURRENTTIME", "___1", "___2"]
+
+inductive Name where
+  | main | tmp | bak
+deriving DecidableEq, Repr
+
+/-- what the code does with an error of a step: return (`abort`), ignore a not-exist error and return
+on any other (`ne`), or only log (`log`). -/
+inductive Pol where
+  | abort | ne | log
+deriving DecidableEq, Repr
+
+inductive FsOp where
+  | write (n : Name) (p : Pol)          -- viper.WriteConfigAs(n): create/truncate, then the bytes
+  | remove (n : Name) (p : Pol)         -- os.Remove
+  | rename (a b : Name) (p : Pol)       -- os.Rename (atomic replace)
+  | link (a b : Name) (p : Pol)         -- os.Link (fails if b exists)
+deriving DecidableEq, Repr
+
+/-- The file-system steps of `saveState`, in source order (after the repair: the standard file is only
+ever replaced by one atomic rename; the backup is a hard link). -/
+def saveOps : List FsOp :=
+  [.write .tmp .abort, .remove .bak .ne, .link .main .bak .log, .rename .tmp .main .log]
+
+/-- The steps as they were before the repair (kept to state the finding). -/
+def saveOpsBeforeFix : List FsOp :=
+  [.write .tmp .abort, .remove .bak .ne, .rename .main .bak .ne, .rename .tmp .main .log]
+
+/-! ## (i) the replay cache -/
+
+structure Cache where
+  keys : List Tag               -- keys of `lastMessages`
+  strs : List (Tag × Msg)       -- `lastMessageStrings`; the first entry of a tag is the current one
+  vip  : List (String × Msg)    -- viper: config file as read at start-up + every `viper.Set` so far
+deriving Repr
+
+def Cache.init (cfg : List (String × Msg)) : Cache := { keys := [], strs := [], vip := cfg }
+
+/-- `lastMessageStrings[t]` -/
+def strOf (strs : List (Tag × Msg)) (t : Tag) : Msg := (strs.lookup t).getD ""
+
+def insertKey (keys : List Tag) (t : Tag) : List Tag := if keys.contains t then keys else t :: keys
+
+inductive Ev where
+  | upd (t : Tag) (m : Msg)     -- one message taken from clientMessageChan (m = JSON text of its state)
+  | save                        -- a save timer fired: `saveState(lastMessages)`
+deriving Repr
+
+inductive Out where
+  | live (t : Tag) (m : Msg)                 -- published at once
+  | replay (l : List (Tag × Msg))            -- published in answer to SENDALL (map order: a set)
+  | saved (l : List (String × Msg))          -- settings handed to the config file by a save
+deriving Repr, BEq
+
+/-- what SENDALL publishes: every key of `lastMessages` except the no-publish tags -/
+def replay (c : Cache) : List (Tag × Msg) :=
+  (c.keys.filter (fun k => !noPublish.contains k)).map (fun k => (k, strOf c.strs k))
+
+/-- value `saveState` stores for a cache key (bookkeeping keys hold constants / the wall clock) -/
+def savedVal (c : Cache) (k : Tag) : Msg := if saveAdds.contains k then "*" else strOf c.strs k
+
+def vipSet (c : Cache) (v : List (String × Msg)) (k : Tag) : List (String × Msg) :=
+  if noSave.contains k.toLower then v else (k.toLower, savedVal c k) :: v
+
+/-- the cache part of `saveState`: insert the bookkeeping keys, `viper.Set` every key not on the
+no-save list -/
+def saveStep (c : Cache) : Cache :=
+  let keys := saveAdds.foldl insertKey c.keys
+  { c with keys := keys, vip := keys.foldl (vipSet c) c.vip }
+
+/-- the settings a save writes, without the bookkeeping keys; first entry of a key wins -/
+def dedupKeys : List (String × Msg) → List String → List (String × Msg)
+  | [], _ => []
+  | (k, v) :: r, seen => if seen.contains k then dedupKeys r seen else (k, v) :: dedupKeys r (k :: seen)
+
+def savedView (vip : List (String × Msg)) : List (String × Msg) :=
+  (dedupKeys vip []).filter (fun kv => !(saveAdds.map String.toLower).contains kv.1)
+
+def step (c : Cache) : Ev → Cache × List Out
+  | .upd t m =>
+    if t == "SENDALL" then (c, [.replay (replay c)]) else
+    let out := if noPublish.contains t then [] else [Out.live t m]
+    if t == "NEWDASTARD" then (c, out) else
+    if strOf c.strs t != m then
+      ({ c with keys := insertKey c.keys t, strs := (t, m) :: c.strs }, out)
+    else (c, out)
+  | .save => let c' := saveStep c; (c', [.saved (savedView c'.vip)])
+
+def run (c : Cache) : List Ev → Cache × List Out
+  | [] => (c, [])
+  | e :: r => let (c1, o1) := step c e; let (c2, o2) := run c1 r; (c2, o1 ++ o2)
+
+/-! ### The property oracles (evaluated on the model's output in the theorems and on the
+implementation's output at run time) -/
+
+/-- `rl` = live messages so far, most recent first.  A SENDALL reply is right when it has one message
+per topic, every message is the most recent live message of its topic, and every topic ever published
+(except the NEWDASTARD event) is there. -/
+def chkSendAll (rl : List (Tag × Msg)) (rep : List (Tag × Msg)) : Bool :=
+  decide (rep.map (·.1)).Nodup &&
+  rep.all (fun tm => rl.lookup tm.1 == some tm.2 && tm.1 != "NEWDASTARD") &&
+  rl.all (fun tm => tm.1 == "NEWDASTARD" || (rep.map (·.1)).contains tm.1)
+
+def chkTrace (rl : List (Tag × Msg)) : List Out → Bool
+  | [] => true
+  | .live t m :: r => chkTrace ((t, m) :: rl) r
+  | .replay l :: r => chkSendAll rl l && chkTrace rl r
+  | .saved _ :: r => chkTrace rl r
+
+/-- last update of tag `t` in a history (most recent first search) -/
+def lastUpd : List Ev → Tag → Option Msg
+  | [], _ => none
+  | .upd t' m :: r, t => match lastUpd r t with
+      | some x => some x
+      | none => if t' == t then some m else none
+  | .save :: r, t => lastUpd r t
+
+def tagsOf : List Ev → List Tag
+  | [] => []
+  | .upd t _ :: r => t :: tagsOf r
+  | .save :: r => tagsOf r
+
+/-- a topic whose latest value must be in the saved file -/
+def persistent (t : Tag) : Bool :=
+  t != "SENDALL" && t != "NEWDASTARD" && !noSave.contains t.toLower && !saveAdds.contains t
+
+/-- the saved settings hold the latest value of every persistent topic updated in `h` -/
+def chkSaved (h : List Ev) (view : List (String × Msg)) : Bool :=
+  (tagsOf h).all (fun t => !persistent t || view.lookup t.toLower == lastUpd h t)
+
+/-! ## (ii) file system, save steps, crash, start-up -/
+
+abbrev Content := List Nat
+
+structure FS where
+  main : Option Content
+  tmp : Option Content
+  bak : Option Content
+deriving DecidableEq, Repr
+
+def FS.get (fs : FS) : Name → Option Content
+  | .main => fs.main | .tmp => fs.tmp | .bak => fs.bak
+
+def FS.set (fs : FS) (n : Name) (v : Option Content) : FS :=
+  match n with
+  | .main => { fs with main := v } | .tmp => { fs with tmp := v } | .bak => { fs with bak := v }
+
+inductive Err where
+  | ok | notExist | other
+deriving DecidableEq, Repr
+
+/-- one complete step writing content `c` -/
+def execOp (c : Content) (fs : FS) : FsOp → FS × Err
+  | .write n _ => (fs.set n (some c), .ok)
+  | .remove n _ => match fs.get n with
+      | none => (fs, .notExist)
+      | some _ => (fs.set n none, .ok)
+  | .rename a b _ => match fs.get a with
+      | none => (fs, .notExist)
+      | some x => if a = b then (fs, .ok) else ((fs.set b (some x)).set a none, .ok)
+  | .link a b _ => match fs.get a with
+      | none => (fs, .notExist)
+      | some x => match fs.get b with
+          | some _ => (fs, .other)
+          | none => (fs.set b (some x), .ok)
+
+def polOf : FsOp → Pol
+  | .write _ p => p | .remove _ p => p | .rename _ _ p => p | .link _ _ p => p
+
+/-- does `saveState` go on to the next step after this result? -/
+def continues (p : Pol) (e : Err) : Bool :=
+  match e, p with
+  | .ok, _ => true
+  | _, .log => true
+  | .notExist, .ne => true
+  | _, _ => false
+
+/-- The process is killed after `k` completed steps (`k ≥` the number of steps: not at all).  With
+`j = some n` the kill comes inside the next step if that is a write: the file then holds the first `n`
+bytes (`n = 0`: created empty; `n ≥ length`: complete but not yet returned). -/
+def crashRun (c : Content) : List FsOp → FS → Nat → Option Nat → FS
+  | [], fs, _, _ => fs
+  | op :: _, fs, 0, j =>
+    match j, op with
+    | some n, .write nm _ => fs.set nm (some (c.take n))
+    | _, _ => fs
+  | op :: rest, fs, k + 1, j =>
+    let r := execOp c fs op
+    if continues (polOf op) r.2 then crashRun c rest r.1 k j else r.1
+
+/-- a save that is not interrupted -/
+def saveAll (c : Content) (ops : List FsOp) (fs : FS) : FS := crashRun c ops fs ops.length none
+
+/-- next start-up: `(did the config file exist?, what is read, directory afterwards)` -/
+def startup (fs : FS) : Bool × Content × FS :=
+  match fs.main with
+  | some x => (true, x, fs)
+  | none => (false, [], { fs with main := some [] })
+
+/-- the property: the file start-up reads existed and is the complete old or the complete new version -/
+def chkCrash (old new : Content) (s : Bool × Content × FS) : Bool :=
+  s.1 && (s.2.1 == old || s.2.1 == new)
+
+/-- steps that change the standard file -/
+def touchesMain : FsOp → Bool
+  | .write n _ => n == .main
+  | .remove n _ => n == .main
+  | .rename a b _ => a == .main || b == .main
+  | .link _ b _ => b == .main
+
+def touchesTmp : FsOp → Bool
+  | .write n _ => n == .tmp
+  | .remove n _ => n == .tmp
+  | .rename a b _ => a == .tmp || b == .tmp
+  | .link _ b _ => b == .tmp
+
+def isWriteTmp : FsOp → Bool
+  | .write .tmp _ => true
+  | _ => false
+
+def isRenameTmpMain : FsOp → Bool
+  | .rename .tmp .main _ => true
+  | _ => false
+
+/-- Decidable shape that makes a step list crash safe: the standard file is changed by exactly one
+step, an atomic `rename tmp main`, reached only with a completely written `tmp`. `full` = tmp is
+known to hold the complete new content. -/
+def safeShape (full : Bool) : List FsOp → Bool
+  | [] => true
+  | op :: r =>
+    if touchesMain op then isRenameTmpMain op && full && r.all (fun o => !touchesMain o)
+    else safeShape (if isWriteTmp op then true else if touchesTmp op then false else full) r
+
+/-! ## Line protocol -/
+
+def insSorted (x : String × String) : List (String × String) → List (String × String)
+  | [] => [x]
+  | y :: r => if x.1 < y.1 || (x.1 == y.1 && x.2 < y.2) || x == y then x :: y :: r else y :: insSorted x r
+
+def sortPairs (l : List (String × String)) : List (String × String) := l.foldr insSorted []
+
+def canonOut : Out → Out
+  | .replay l => .replay (sortPairs l)
+  | .saved l => .saved (sortPairs l)
+  | o => o
+
+def unhex (s : String) : String := if s == "-" then "" else s
+def rehex (s : String) : String := if s == "" then "-" else s
+
+def showOut : Out → String
+  | .live t m => s!"L {t} {rehex m}"
+  | .replay l => s!"A {l.length}" ++ String.join (l.map fun p => s!" {p.1} {rehex p.2}")
+  | .saved l => s!"S {l.length}" ++ String.join (l.map fun p => s!" {p.1} {rehex p.2}")
+
+inductive HOp where
+  | u (t : Tag) (m : Msg) | a | s
+deriving Repr
+
+def parsePair : P (String × String) := do
+  let k ← P.tok
+  let v ← P.tok
+  pure (k, unhex v)
+
+def parseHOp : P HOp := do
+  let k ← P.tok
+  match k with
+  | "U" => do let t ← P.tok; let m ← P.tok; pure (.u t (unhex m))
+  | "A" => pure .a
+  | "S" => pure .s
+  | _ => P.fail s!"bad op {k}"
+
+partial def parseOuts : P (List Out) := do
+  if (← P.atEnd) then return []
+  let k ← P.tok
+  let o ← match k with
+    | "L" => do let t ← P.tok; let m ← P.tok; pure (Out.live t (unhex m))
+    | "A" => do let l ← P.list parsePair; pure (Out.replay l)
+    | "S" => do let l ← P.list parsePair; pure (Out.saved l)
+    | _ => P.fail s!"bad output event {k}"
+  let r ← parseOuts
+  pure (o :: r)
+
+def evsOf : List HOp → List Ev
+  | [] => []
+  | .u t m :: r => .upd t m :: evsOf r
+  | .a :: r => .upd "SENDALL" "0" :: evsOf r
+  | .s :: r => .save :: evsOf r
+
+/-- histories up to and including each save -/
+def savePrefixes : List Ev → List Ev → List (List Ev)
+  | _, [] => []
+  | acc, .save :: r => (acc ++ [.save]) :: savePrefixes (acc ++ [.save]) r
+  | acc, e :: r => savePrefixes (acc ++ [e]) r
+
+def savedOuts : List Out → List (List (String × Msg))
+  | [] => []
+  | .saved l :: r => l :: savedOuts r
+  | _ :: r => savedOuts r
+
+def runH (cfg : List (String × Msg)) (ops : List HOp) (impl : List Out) : Verdict :=
+  let evs := evsOf ops
+  let mo := (run (Cache.init cfg) evs).2.map canonOut
+  let io := impl.map canonOut
+  -- oracle on the implementation's output
+  if !chkTrace [] io then
+    .viol "C16:sendall-not-latest a SENDALL reply is not exactly the latest message of every published topic"
+  else if !((savePrefixes [] evs).zip (savedOuts io)).all (fun hv => chkSaved hv.1 hv.2) then
+    .viol "C16:saved-not-latest the saved configuration lacks the latest value of a persistent topic"
+  else if mo != io then
+    let i := (firstDiff mo io 0).getD 0
+    .diff s!"history event {i}: model=[{(mo[i]?.map showOut).getD "-"}] impl=[{(io[i]?.map showOut).getD "-"}]"
+  else
+    let replies := io.filterMap fun o => match o with | .replay l => some l | _ => none
+    let ups := ops.filterMap fun o => match o with | .u t m => some (t, m) | _ => none
+    let changed := (ups.zip (ups.drop 1)).any fun (x, y) => x.1 == y.1 && x.2 != y.2
+    let rec hasRepeat : List (String × String) → Bool
+      | [] => false
+      | x :: r => r.contains x || hasRepeat r
+    .ok (["H"] ++ (if replies.any (fun l => l.length > 0) then ["replay"] else [])
+      ++ (if replies.any (fun l => l.length > 1) && hasRepeat ups then ["replay-multi-repeat"] else [])
+      ++ (if changed then ["changed"] else [])
+      ++ (if hasRepeat ups then ["repeat"] else [])
+      ++ (if ups.any (fun u => noPublish.contains u.1) then ["nopub"] else [])
+      ++ (if ups.any (fun u => noSave.contains u.1.toLower) then ["nosave"] else [])
+      ++ (if ups.any (fun u => u.1 == "NEWDASTARD") then ["newdastard"] else [])
+      ++ (if (savedOuts io).length > 0 then ["saved"] else [])
+      ++ (if cfg.length > 0 then ["oldcfg"] else []))
+
+/-! ### crash cases -/
+
+def contentOf (s : String) : Option (Option Content) :=
+  if s == "-" then some none
+  else if s == "E" then some (some [])
+  else if s == "B" then some (some [5, 5, 5, 5])
+  else if s == "T" then some (some [6, 6, 6, 6])
+  else if s == "TP" then some (some [6, 6])
+  else if s.startsWith "C" then (s.drop 1).toNat?.map fun i => some (List.replicate 4 (10 + i))
+  else if s.startsWith "P" then
+    match (s.drop 1).toString.splitOn ":" with
+    | [a, b] => match a.toNat?, b.toNat? with
+        | some i, some q => some (some ((List.replicate 4 (10 + i)).take q))
+        | _, _ => none
+    | _ => none
+  else none
+
+def labelOf : Option Content → String
+  | none => "-"
+  | some [] => "E"
+  | some [5, 5, 5, 5] => "B"
+  | some [6, 6, 6, 6] => "T"
+  | some [6, 6] => "TP"
+  | some (x :: r) =>
+    if x ≥ 10 && r.all (· == x) then
+      (if r.length == 3 then s!"C{x - 10}" else s!"P{x - 10}:{r.length + 1}")
+    else "X"
+
+def newC (i : Nat) : Content := List.replicate 4 (10 + i)
+
+def preSaves (ops : List FsOp) : Nat → Nat → FS → FS
+  | 0, _, fs => fs
+  | n + 1, i, fs => preSaves ops n (i + 1) (saveAll (newC i) ops fs)
+
+structure KIn where
+  main : String
+  bak : String
+  tmp : String
+  pre : Nat
+  k : Nat
+  j : Option Nat
+  crashed : Bool
+
+structure KOut where
+  exit : Nat
+  fsMain : String
+  fsTmp : String
+  fsBak : String
+  existed : Bool
+  after : String
+  read : String
+
+def parseK : P (KIn × KOut) := do
+  P.kw "main"; let m ← P.tok
+  P.kw "bak"; let b ← P.tok
+  P.kw "tmp"; let t ← P.tok
+  P.kw "pre"; let pre ← P.nat
+  P.kw "crash"
+  let c ← P.tok
+  let (k, j, crashed) ← match c with
+    | "none" => pure (1000, none, false)
+    | "at" => do let k ← P.nat; let _ ← P.tok; pure (k, none, true)
+    | "inw" => do let k ← P.nat; let q ← P.nat; pure (k, some q, true)
+    | _ => P.fail s!"bad crash spec {c}"
+  P.kw "OUT"
+  P.kw "exit"; let ex ← P.nat
+  P.kw "fs"; let fm ← P.tok; let ft ← P.tok; let fb ← P.tok
+  P.kw "su"; let e ← P.bool; let af ← P.tok; let rd ← P.tok
+  pure ({ main := m, bak := b, tmp := t, pre, k, j, crashed },
+        { exit := ex, fsMain := fm, fsTmp := ft, fsBak := fb, existed := e, after := af, read := rd })
+
+def runK (i : KIn) (o : KOut) : Verdict :=
+  match contentOf i.main, contentOf i.bak, contentOf i.tmp with
+  | some m, some b, some t =>
+    let fs0 : FS := { main := m, tmp := t, bak := b }
+    let fs1 := preSaves saveOps i.pre 1 fs0
+    let new := newC (i.pre + 1)
+    let fs2 := crashRun new saveOps fs1 i.k i.j
+    let su := startup fs2
+    -- oracle on the implementation's observation
+    let oldL := labelOf fs1.main     -- the complete old version (the previous save's, or the initial file)
+    let newL := labelOf (some new)
+    if !o.existed then
+      .viol s!"C16:crash-no-config no configuration file after a kill of saveState (directory: main={o.fsMain} tmp={o.fsTmp} bak={o.fsBak}); start-up created an empty one"
+    else if !(o.read == oldL || o.read == newL) || !(o.after == oldL || o.after == newL) then
+      .viol s!"C16:crash-config-damaged after a kill of saveState start-up read {o.read} (file {o.after}), neither the complete old ({oldL}) nor the complete new ({newL}) version"
+    else
+      let ms := s!"{labelOf fs2.main} {labelOf fs2.tmp} {labelOf fs2.bak} su {if su.1 then 1 else 0} {labelOf su.2.2.main} {labelOf (some su.2.1)}"
+      let is := s!"{o.fsMain} {o.fsTmp} {o.fsBak} su {if o.existed then 1 else 0} {o.after} {o.read}"
+      if ms != is then .diff s!"crash case: model=[{ms}] impl=[{is}]"
+      else if i.crashed != (o.exit == 77) then .diff s!"crash case: requested kill={i.crashed} but exit status {o.exit}"
+      else
+        .ok (["K"] ++ (if i.crashed && i.k > 0 && i.k < saveOps.length then ["crash-mid"] else [])
+          ++ (if i.j.isSome then ["inwrite"] else [])
+          ++ (if !i.crashed then ["complete"] else [])
+          ++ (if i.pre > 0 then ["after-saves"] else [])
+          ++ (if i.tmp != "-" then ["stale-tmp"] else [])
+          ++ (if i.main == "E" then ["fresh"] else [])
+          ++ (if o.read == newL then ["reads-new"] else ["reads-old"]))
+  | _, _, _ => .bad "bad content label"
+
+/-! ### round trip of the persisted structures (viper / YAML / mapstructure: a trusted parameter of the
+model — the model takes "read back = what was written"; the harness exercises it on the real path) -/
+
+def runR (ts : List String) : Verdict :=
+  let p : P (String × List String × List String) := do
+    P.kw "old"; let _ ← P.nat
+    P.kw "nch"; let _ ← P.nat
+    P.kw "ntrig"; let _ ← P.nat
+    P.kw "rej"; let rej ← P.tok
+    P.kw "have"; let hv ← P.list P.tok
+    P.kw "h"; let _ ← P.tok
+    P.kw "OUT"
+    let rest ← get
+    pure (rej, hv, rest)
+  match P.run p ts with
+  | .error e => .bad e
+  | .ok (rej, hv, out) =>
+    match out with
+    | "CRASH" :: cls => .viol s!"C16:restore-crash start-up crashed while restoring a saved configuration ({" ".intercalate cls})"
+    | ["ERR"] => .viol "C16:restore-error start-up could not read a saved configuration"
+    | _ =>
+      let rec pairs : List String → List (String × String)
+        | a :: b :: r => (a, b) :: pairs r
+        | _ => []
+      let got := pairs out
+      -- a saved REJECTED request was never the configuration of a source: only "start-up survives" is demanded
+      let judged := hv.filter (fun k => !((k == "triangle" && rej.startsWith "tri") || (k == "simpulse" && rej.startsWith "sim")))
+      match judged.find? (fun k => got.lookup k != some "1") with
+      | some k => .viol s!"C16:roundtrip-{k} the {k} settings restored at the next start-up differ from the ones saved"
+      | none =>
+        if out != ["none"] && got.length != hv.length then .diff "restore report does not match the saved topics"
+        else .ok (["R"] ++ hv.map (fun k => "rt-" ++ k) ++ (if rej == "-" then [] else ["rejected-request"]))
+
+/-! ### facts -/
+
+def nameTok : Name → String
+  | .main => "main" | .tmp => "tmp" | .bak => "bak"
+def polTok : Pol → String
+  | .abort => "abort" | .ne => "ne" | .log => "log"
+def opTok : FsOp → String
+  | .write n p => s!"W:{nameTok n}:{polTok p}"
+  | .remove n p => s!"RM:{nameTok n}:{polTok p}"
+  | .rename a b p => s!"RN:{nameTok a}:{nameTok b}:{polTok p}"
+  | .link a b p => s!"LN:{nameTok a}:{nameTok b}:{polTok p}"
+
+def runF (ts : List String) : Verdict :=
+  let p : P (List String × List String × List String × List String) := do
+    P.kw "OUT"
+    P.kw "ops"; let ops ← P.list P.tok
+    P.kw "nopub"; let np ← P.list P.tok
+    P.kw "nosave"; let ns ← P.list P.tok
+    P.kw "adds"; let ad ← P.list P.tok
+    pure (ops, np, ns, ad)
+  match P.run p ts with
+  | .error e => .diff s!"facts: the source reader no longer recognises saveState / the tag sets ({e}; line: {" ".intercalate ts})"
+  | .ok (ops, np, ns, ad) =>
+    let steps := ops.filter (fun t => !t.startsWith "P:")
+    if steps != saveOps.map opTok then
+      .diff s!"facts: file-system steps of saveState: code=[{" ".intercalate steps}] model=[{" ".intercalate (saveOps.map opTok)}]"
+    else if np != noPublish then .diff s!"facts: no-publish set: code=[{" ".intercalate np}] model=[{" ".intercalate noPublish}]"
+    else if ns != noSave then .diff s!"facts: no-save set: code=[{" ".intercalate ns}] model=[{" ".intercalate noSave}]"
+    else if ad != saveAdds then .diff s!"facts: keys inserted by saveState: code=[{" ".intercalate ad}] model=[{" ".intercalate saveAdds}]"
+    else .ok ["F"]
+
+def crashedOut : List String → Option String
+  | [] => none
+  | "OUT" :: "PANIC" :: r => some ("PANIC " ++ " ".intercalate r)
+  | "OUT" :: "HANG" :: _ => some "HANG"
+  | _ :: r => crashedOut r
+
+def runLine (ts : List String) : Verdict :=
+  match crashedOut ts with
+  | some what => .viol s!"C16:crash-{(ts.head?).getD "?"} the real code crashed or hung in this case: {what}"
+  | none =>
+  match ts with
+  | "F" :: r => runF r
+  | "H" :: r =>
+    let p : P (List (String × Msg) × List HOp × List Out) := do
+      P.kw "cfg"; let cfg ← P.list parsePair
+      P.kw "ops"; let ops ← P.list parseHOp
+      P.kw "OUT"
+      let outs ← parseOuts
+      pure (cfg, ops, outs)
+    match P.run p r with
+    | .error e => .bad e
+    | .ok (cfg, ops, outs) => runH cfg ops outs
+  | "K" :: r =>
+    match P.run parseK r with
+    | .error e => .bad e
+    | .ok (i, o) => runK i o
+  | "R" :: r => runR r
+  | _ => .bad "unknown case kind"
 
 end DastardV.C16
